@@ -207,9 +207,12 @@ def caller_check(ctx, where, before, after, desc, suffix=""):
     return raw
 
 
-def model_check(ctx, where, role, bufs, before, desc):
+def model_check(ctx, where, role, bufs, before, desc, model=None):
     after = A.hash_buffers(bufs)
     ch = A.changed_keys(before, after)
+    if model is not None:
+        # the observable state is what the attributes hold *now*: an attribute re-bound to a new array (no buffer written) counts too
+        ch = sorted(set(ch) | set(A.changed_keys(before, A.snap_model(model))))
     for k in ch:
         ctx.fail("%s:%s%s_changed" % (where, role, k), "%s of the %smodel differs after %s" % (k, role.replace("_", " "), where), desc)
     return bool(ch)
@@ -286,7 +289,7 @@ def run_case(ctx, env, spec, terms, descs, rs_helper):
                 xa = A.snap_obj(Xn)
                 chk = check_array(Xn, dtype=np.uint8 if c["metric"].startswith("bit_") else np.float32, accept_sparse="csr", order="C")
                 same = joblib.hash(chk) == m._input_hash
-                pch = model_check(ctx, "UMAP.transform", "", bufs0, h0, d)
+                pch = model_check(ctx, "UMAP.transform", "", bufs0, h0, d, m)
                 cch = caller_check(ctx, "UMAP.transform", dict(X=xb), dict(X=xa), d)["X"]
                 fch = any(caller_check(ctx, "UMAP.transform", cal0, caller_snap(fit_objs), d, ":array_given_to_fit").values())
                 alias = bool(isinstance(res, np.ndarray) and emb is not None and np.shares_memory(res, m.embedding_))
@@ -297,7 +300,7 @@ def run_case(ctx, env, spec, terms, descs, rs_helper):
                 xb = A.snap_obj(P)
                 m.inverse_transform(P)
                 xa = A.snap_obj(P)
-                pch = model_check(ctx, "UMAP.inverse_transform", "", bufs0, h0, d)
+                pch = model_check(ctx, "UMAP.inverse_transform", "", bufs0, h0, d, m)
                 cch = caller_check(ctx, "UMAP.inverse_transform", dict(X=xb), dict(X=xa), d)["X"]
                 fch = any(caller_check(ctx, "UMAP.inverse_transform", cal0, caller_snap(fit_objs), d, ":array_given_to_fit").values())
                 opterms.append("(VI %s, %s)" % (A.b(opn == "Iconf" and env["check_array_identity_dense"]), A.blist([pch or fch, cch, False])))
@@ -307,16 +310,16 @@ def run_case(ctx, env, spec, terms, descs, rs_helper):
                     helper = umap.UMAP(n_neighbors=5, n_epochs=11, random_state=2).fit(rs_helper.normal(size=(c["n"], 3)).astype(np.float32))
                 hb = A.model_buffers(helper); hh = A.hash_buffers(hb)
                 r = {"mul": lambda a, b_: a * b_, "add": lambda a, b_: a + b_, "sub": lambda a, b_: a - b_}[opn](m, helper)
-                pch = model_check(ctx, "UMAP.__%s__" % opn, "left_operand_", bufs0, h0, d)
-                pch = model_check(ctx, "UMAP.__%s__" % opn, "right_operand_", hb, hh, d) or pch
+                pch = model_check(ctx, "UMAP.__%s__" % opn, "left_operand_", bufs0, h0, d, m)
+                pch = model_check(ctx, "UMAP.__%s__" % opn, "right_operand_", hb, hh, d, helper) or pch
                 fch = any(caller_check(ctx, "UMAP.__%s__" % opn, cal0, caller_snap(fit_objs), d, ":array_given_to_fit").values())
                 opterms.append("(VC %s true, %s)" % ({"mul": "OMul", "add": "OAdd", "sub": "OSub"}[opn], A.blist([pch or fch, False, False])))
                 optags.append("operator_" + opn)
                 # and the other way round (the model as right operand) - oracle only
                 hh2 = A.hash_buffers(hb); h0b = A.hash_buffers(bufs0)
                 {"mul": lambda a, b_: a * b_, "add": lambda a, b_: a + b_, "sub": lambda a, b_: a - b_}[opn](helper, m)
-                model_check(ctx, "UMAP.__%s__" % opn, "right_operand_", bufs0, h0b, d)
-                model_check(ctx, "UMAP.__%s__" % opn, "left_operand_", hb, hh2, d)
+                model_check(ctx, "UMAP.__%s__" % opn, "right_operand_", bufs0, h0b, d, m)
+                model_check(ctx, "UMAP.__%s__" % opn, "left_operand_", hb, hh2, d, helper)
             elif opn in ("Uconf", "Uconv"):
                 if sparse:
                     Xn = c["newX"](("csr", "float32", "C") if opn == "Uconf" else ("coo", "float64", "C"), rows=6)
@@ -387,7 +390,7 @@ def run_history(ctx, env, hseed, terms, descs):
             pool.append(r)
             hist.append("%s(%d,%d)->%d" % (kind, a, b_, len(pool) - 1))
         for j, (b0, h0) in enumerate(zip(bufs, hs)):
-            changed = model_check(ctx, "history:" + kind, "model%d_" % j, b0, h0, d) or changed
+            changed = model_check(ctx, "history:" + kind, "model%d_" % j, b0, h0, d, pool[j] if j < len(pool) else None) or changed
         opterms[-1] = opterms[-1] % A.b(changed)
     ctx.tag(("history", hseed), ["history_len_%d" % len(hist)])
     terms.append("(%s, 3, [%s])" % (env["_facts"], "; ".join(opterms)))
